@@ -7,6 +7,7 @@ import (
 	"fmt"
 	"math"
 	"math/rand"
+	"slices"
 	gosort "sort"
 	"strconv"
 	"strings"
@@ -36,7 +37,11 @@ const Rule = "one op = one slice handed to one sort. Comparison sorts get key:id
 	"the shuffle and are quadratic there) - judged by 'sorted by the comparator AND a permutation of the input' / 'an element of rank k'. " +
 	"Merge / MergeRec: the driver runs the Model with an in-place copy of the merged range (proved equal: C07_driver_merge_is_model_merge). sub / alias: a sort handed a window a[lo:hi] of a larger backing array, then a " +
 	"second, overlapping window of the same array (elements outside a window must stay, the window must be the sorted permutation of what it " +
-	"held); `sort <algo>` without elements also sorts the nil slice"
+	"held); `sort <algo>` without elements also sorts the nil slice. Header ty=struct|ptr|slice|string: the comparison sorts and Select " +
+	"instantiated with struct{string; elem; []int} (comparator on one field), *elem, []int{key,id} and a fixed-width string (cmp=lex: " +
+	"slices.Compare / strings.Compare on the carrier); every slice length 0..200 for every sort, Select, Shuffle, LSDString; hx Huge " +
+	"(thorough tier / witness search / enlarged budget): 2^17, 2^17+1 and 2^20 elements for the radix sorts (every bit pattern, top 16 " +
+	"bits, extremes), the n log n comparison sorts, Select, Shuffle and the string sorts (oracle only)"
 
 type elem struct{ k, id int }
 
@@ -50,7 +55,17 @@ func sgn(a, b int) int {
 	return 0
 }
 
+// splitTy: Exec hands runOp "<cmp>@<ty>": the comparator name and the Go element type the generic sorts are
+// instantiated with (header ty=; "" = the elem struct itself).
+func splitTy(name string) (cmp, ty string) {
+	if i := strings.IndexByte(name, '@'); i >= 0 {
+		return name[:i], name[i+1:]
+	}
+	return name, ""
+}
+
 func cls(name string, k int) int {
+	name, _ = splitTy(name)
 	if name == "mod3" || name == "mod3x5" {
 		return k % 3
 	}
@@ -58,7 +73,15 @@ func cls(name string, k int) int {
 }
 
 func cmpOf(name string) generic.CompareFunc[elem] {
+	name, _ = splitTy(name)
 	switch name {
+	case "lex": // key, then id
+		return func(a, b elem) int {
+			if a.k != b.k {
+				return sgn(a.k, b.k)
+			}
+			return sgn(a.id, b.id)
+		}
 	case "desc":
 		return func(a, b elem) int { return sgn(b.k, a.k) }
 	case "mod3":
@@ -506,7 +529,154 @@ func digestStrs(a []string) uint64 {
 
 func showDigest(n int, h uint64) string { return fmt.Sprintf("ok n=%d h=%016x", n, h) }
 
+// ---- Axis 4: the element types the generic sorts are instantiated with. The Model is generic; whatever carries an
+// element, it prints as key:id.
+//
+//	struct  a func-free struct with a string, the element and a slice; the comparator looks at one field
+//	ptr     *elem
+//	slice   []int{key, id} (not comparable); cmp=lex: slices.Compare, otherwise the comparator on (s[0], s[1])
+//	string  "<key+2^63, 20 digits>|<id+2^63, 20 digits>"; cmp=lex: strings.Compare, otherwise the comparator on the decoded pair
+
+type rec struct {
+	label string
+	e     elem
+	extra []int
+}
+
+func encStr(e elem) string {
+	return fmt.Sprintf("%020d|%020d", uint64(e.k)^(1<<63), uint64(e.id)^(1<<63))
+}
+
+func decStr(s string) elem {
+	k, _ := strconv.ParseUint(s[:20], 10, 64)
+	id, _ := strconv.ParseUint(s[21:], 10, 64)
+	return elem{int(k ^ (1 << 63)), int(id ^ (1 << 63))}
+}
+
+// withType runs f on the slice `a` carried by the element type ty and writes the result back into a.
+// f gets a typed slice and comparator through the callback `run` (generic functions cannot be passed as values).
+func sortTyped(name, algo string, a []elem) bool {
+	cmpName, ty := splitTy(name)
+	cmp := cmpOf(cmpName)
+	switch ty {
+	case "", "elem":
+		return sortAny(algo, a, cmp)
+	case "struct":
+		b := make([]rec, len(a))
+		for i, e := range a {
+			b[i] = rec{label: strconv.Itoa(e.id), e: e, extra: []int{e.k}}
+		}
+		ok := sortAny(algo, b, func(x, y rec) int { return cmp(x.e, y.e) })
+		for i := range b {
+			a[i] = b[i].e
+		}
+		return ok
+	case "ptr":
+		b := make([]*elem, len(a))
+		for i := range a {
+			e := a[i]
+			b[i] = &e
+		}
+		ok := sortAny(algo, b, func(x, y *elem) int { return cmp(*x, *y) })
+		for i := range b {
+			a[i] = *b[i]
+		}
+		return ok
+	case "slice":
+		b := make([][]int, len(a))
+		for i, e := range a {
+			b[i] = []int{e.k, e.id}
+		}
+		c := func(x, y []int) int { return cmp(elem{x[0], x[1]}, elem{y[0], y[1]}) }
+		if cmpName == "lex" {
+			c = func(x, y []int) int { return slices.Compare(x, y) }
+		}
+		ok := sortAny(algo, b, c)
+		for i := range b {
+			a[i] = elem{b[i][0], b[i][1]}
+		}
+		return ok
+	case "string":
+		b := make([]string, len(a))
+		for i, e := range a {
+			b[i] = encStr(e)
+		}
+		c := func(x, y string) int { return cmp(decStr(x), decStr(y)) }
+		if cmpName == "lex" {
+			c = strings.Compare
+		}
+		ok := sortAny(algo, b, c)
+		for i := range b {
+			a[i] = decStr(b[i])
+		}
+		return ok
+	}
+	return false
+}
+
+// selectTyped: sort.Select on the slice carried by the element type ty (a is permuted as Select permutes it).
+func selectTyped(name string, a []elem, k int) elem {
+	cmpName, ty := splitTy(name)
+	cmp := cmpOf(cmpName)
+	switch ty {
+	case "struct":
+		b := make([]rec, len(a))
+		for i, e := range a {
+			b[i] = rec{label: strconv.Itoa(e.id), e: e, extra: []int{e.k}}
+		}
+		v := sort.Select(b, k, func(x, y rec) int { return cmp(x.e, y.e) })
+		for i := range b {
+			a[i] = b[i].e
+		}
+		return v.e
+	case "slice":
+		b := make([][]int, len(a))
+		for i, e := range a {
+			b[i] = []int{e.k, e.id}
+		}
+		c := func(x, y []int) int { return cmp(elem{x[0], x[1]}, elem{y[0], y[1]}) }
+		if cmpName == "lex" {
+			c = func(x, y []int) int { return slices.Compare(x, y) }
+		}
+		v := sort.Select(b, k, c)
+		for i := range b {
+			a[i] = elem{b[i][0], b[i][1]}
+		}
+		return elem{v[0], v[1]}
+	case "string":
+		b := make([]string, len(a))
+		for i, e := range a {
+			b[i] = encStr(e)
+		}
+		c := func(x, y string) int { return cmp(decStr(x), decStr(y)) }
+		if cmpName == "lex" {
+			c = strings.Compare
+		}
+		v := sort.Select(b, k, c)
+		for i := range b {
+			a[i] = decStr(b[i])
+		}
+		return decStr(v)
+	case "ptr":
+		b := make([]*elem, len(a))
+		for i := range a {
+			e := a[i]
+			b[i] = &e
+		}
+		v := sort.Select(b, k, func(x, y *elem) int { return cmp(*x, *y) })
+		for i := range b {
+			a[i] = *b[i]
+		}
+		return *v
+	}
+	return sort.Select(a, k, cmp)
+}
+
 func sortElems(algo string, a []elem, cmp generic.CompareFunc[elem]) bool {
+	return sortAny(algo, a, cmp)
+}
+
+func sortAny[T any](algo string, a []T, cmp generic.CompareFunc[T]) bool {
 	switch algo {
 	case "selection":
 		sort.Selection(a, cmp)
@@ -687,7 +857,7 @@ func runGen(cmpName string, f []string) opResult {
 				return r
 			}
 			a := append([]elem{}, in...)
-			if !sortElems(algo, a, cmp) {
+			if !sortTyped(cmpName, algo, a) {
 				return r
 			}
 			if algo == "quick" {
@@ -712,7 +882,7 @@ func runGen(cmpName string, f []string) opResult {
 			r.tags = append(r.tags, "select-k-out-of-range")
 		}
 		a := append([]elem{}, in...)
-		v := sort.Select(a, k, cmp) // panics for k outside [0,n)
+		v := selectTyped(cmpName, a, k) // panics for k outside [0,n)
 		r.out = "ok " + strconv.Itoa(cls(cmpName, v.k))
 		r.bad = judgeSelect(in, a, v, k, cmp)
 		r.nontrivial = n >= 2
@@ -1018,26 +1188,7 @@ func runOp(cmpName string, line string) opResult {
 				return r
 			}
 			a := append([]elem{}, in...)
-			switch algo {
-			case "selection":
-				sort.Selection(a, cmp)
-			case "insertion":
-				sort.Insertion(a, cmp)
-			case "shell":
-				sort.Shell(a, cmp)
-			case "merge":
-				sort.Merge(a, cmp)
-			case "mergerec":
-				sort.MergeRec(a, cmp)
-			case "quick3way":
-				sort.Quick3Way(a, cmp)
-			case "heap":
-				sort.Heap(a, cmp)
-			case "quickcore":
-				sort.VerifQuickNoShuffle(a, cmp)
-			case "quick":
-				sort.Quick(a, cmp)
-			}
+			sortTyped(cmpName, algo, a)
 			if algo == "quick" {
 				r.out = showElems("ok", canonRuns(cmp, a))
 			} else {
@@ -1144,7 +1295,7 @@ func runOp(cmpName string, line string) opResult {
 		if k < 0 || k >= len(in) {
 			r.tags = append(r.tags, "select-k-out-of-range")
 		}
-		v := sort.Select(a, k, cmp) // panics for k outside [0,n): outside the property's precondition
+		v := selectTyped(cmpName, a, k) // panics for k outside [0,n): outside the property's precondition
 		r.out = "ok " + strconv.Itoa(cls(cmpName, v.k))
 		less, leq, found := 0, 0, false
 		for _, x := range in {
@@ -1332,6 +1483,10 @@ func Exec(c hx.Case) hx.Result {
 	}
 	res := hx.Result{BadOp: -1}
 	tags := map[string]bool{"cmp=" + cmpName: true}
+	if ty := hx.HeaderGet(c.Header, "ty"); ty != "" && ty != "elem" {
+		tags["ty="+ty] = true
+		cmpName += "@" + ty
+	}
 	for i, op := range c.Ops {
 		var r opResult
 		kind := ""
@@ -1856,6 +2011,148 @@ func Main(run *hx.Run) {
 	}
 	sweeps(run)
 	subSlices(run)
+	elementTypes(run)
+	everySize(run)
+	if run.Huge() {
+		huge(run)
+	}
+}
+
+// ---------------------------------------------------------------- Axis 4: element types
+
+var elemTypes = []string{"struct", "ptr", "slice", "string"}
+
+// elementTypes: every comparison sort and Select instantiated with a struct (comparator on one field), a pointer, the
+// non-comparable []int{key, id} and a string; `lex` = slices.Compare / strings.Compare on the carrier itself, the
+// other comparators look through the carrier at the key.
+func elementTypes(run *hx.Run) {
+	r := run.R.Fork("types")
+	seed := func() string { return strconv.FormatUint(r.U64(), 10) }
+	for ai, algo := range append(append([]string{}, cmpAlgos...), "select") {
+		for ti, ty := range elemTypes {
+			for k := 0; k < run.Scale(2); k++ {
+				cmp := cmpNames[(ai+ti+k)%len(cmpNames)]
+				if (ty == "slice" || ty == "string") && k == 0 {
+					cmp = "lex"
+				}
+				var ops []string
+				for j := 0; j < 3; j++ {
+					keys := randKeys(r, pickLen(r))
+					if algo == "select" {
+						if len(keys) == 0 {
+							keys = []int{1}
+						}
+						ops = append(ops, join("select", strconv.Itoa(r.Intn(len(keys))), elemsOp(keys)))
+					} else {
+						ops = append(ops, join("sort", algo, elemsOp(keys)))
+					}
+				}
+				for _, n := range []int{17, 65, 257, 1025} {
+					mix := elemMixes[(ai+ti+n)%(len(elemMixes)-1)] // not `big`: the un-normalised comparators subtract keys
+					if algo == "select" {
+						ops = append(ops, join("gselect", strconv.Itoa(n/2), strconv.Itoa(n), mix, seed()))
+					} else if slow, _ := sweepLimit(algo, mix, n); !slow || n <= 257 {
+						ops = append(ops, join("gsort", algo, strconv.Itoa(n), mix, seed()))
+					}
+				}
+				run.Do(algo, hx.Case{Header: "comp=" + algo + " cmp=" + cmp + " ty=" + ty, Ops: ops}, Exec)
+			}
+		}
+	}
+	run.Stats.Extra["element_types"] = "comparison sorts and Select also with struct{string; elem; []int}, *elem, []int{key,id} (slices.Compare) and string (strings.Compare) elements"
+}
+
+// ---------------------------------------------------------------- every size 0..200
+
+// everySize: every sort, Select, Shuffle and LSDString on every length from 0 to 200 (thresholds that are not powers of two).
+func everySize(run *hx.Run) {
+	r := run.R.Fork("everysize")
+	rot := int(run.Seed % 1000)
+	seed := func() string { return strconv.FormatUint(r.U64(), 10) }
+	chunks := func(comp, cmp string, ops []string) {
+		for len(ops) > 0 {
+			n := min(len(ops), 67)
+			do(run, comp, cmp, ops[:n]...)
+			ops = ops[n:]
+		}
+	}
+	small := elemMixes[:len(elemMixes)-1] // without `big`
+	for ai, algo := range append(append([]string{}, cmpAlgos...), "select") {
+		var ops []string
+		for n := 0; n <= 200; n++ {
+			mix := small[(n+ai+rot)%len(small)]
+			if algo == "select" {
+				if n > 0 {
+					ops = append(ops, join("gselect", strconv.Itoa((n*7+rot)%n), strconv.Itoa(n), mix, seed()))
+				}
+			} else {
+				ops = append(ops, join("gsort", algo, strconv.Itoa(n), mix, seed()))
+			}
+		}
+		chunks(algo, cmpNames[(ai+rot)%len(cmpNames)], ops)
+	}
+	for ai, algo := range []string{"lsduint", "lsdint", "msduint", "msdint"} {
+		var ops []string
+		for n := 0; n <= 200; n++ {
+			ops = append(ops, join("gsort", algo, strconv.Itoa(n), wordMixes[(n+ai+rot)%len(wordMixes)], seed()))
+		}
+		chunks(algo, "asc", ops)
+	}
+	for ai, algo := range []string{"msdstring", "q3string"} {
+		var ops []string
+		for n := 0; n <= 200; n++ {
+			ops = append(ops, join("gsort", algo, strconv.Itoa(n), strMixes[(n+ai+rot)%len(strMixes)], seed(), strconv.Itoa((n+rot)%7)))
+		}
+		chunks(algo, "asc", ops)
+	}
+	{
+		var ops, sh []string
+		for n := 0; n <= 200; n++ {
+			ops = append(ops, join("glsdstring", strconv.Itoa(1+(n+rot)%4), strconv.Itoa(n), []string{"fix", "fixlong", "eq"}[(n+rot)%3], seed()))
+			sh = append(sh, join("gshuffle", strconv.Itoa(n), seed()))
+		}
+		chunks("lsdstring", "asc", ops)
+		chunks("shuffle", "asc", sh)
+	}
+	run.Stats.Extra["every_size"] = "every slice length 0..200 for every sort, Select, Shuffle, LSDString"
+}
+
+// ---------------------------------------------------------------- hx Huge: 2^17, 2^17+1, 2^20 elements
+
+// huge: every radix sort and every comparison sort that is O(n log n) on the input at 2^17, 2^17+1 and 2^20 elements with
+// every bit pattern / both signs / magnitudes up to 2^61 (oracle only: sorted AND a permutation). Too expensive for every
+// quick run; runs in the thorough tier, in a witness search and when the digest of a modelled function changed.
+func huge(run *hx.Run) {
+	r := run.R.Fork("huge")
+	seed := func() string { return strconv.FormatUint(r.U64(), 10) }
+	one := func(comp, cmp, op string) {
+		run.Do(comp, hx.Case{Header: "comp=" + comp + " cmp=" + cmp, Ops: []string{op}, NoModel: true}, Exec)
+	}
+	for _, n := range []int{1 << 17, 1<<17 + 1, 1 << 20} {
+		N := strconv.Itoa(n)
+		for _, algo := range []string{"lsduint", "lsdint", "msduint", "msdint"} {
+			one(algo, "asc", join("gsort", algo, N, "full", seed()))
+			one(algo, "asc", join("gsort", algo, N, "hi", seed()))
+			one(algo, "asc", join("gsort", algo, N, "ext", seed()))
+		}
+		for i, algo := range []string{"shell", "merge", "mergerec", "heap", "quick", "quick3way", "quickcore"} {
+			one(algo, cmpNames[i%len(cmpNames)], join("gsort", algo, N, "rand", seed()))
+			one(algo, []string{"asc", "desc"}[i%2], join("gsort", algo, N, "big", seed()))
+		}
+		for _, algo := range []string{"merge", "mergerec", "heap", "shell", "quick"} { // n log n on sorted input too
+			one(algo, "asc", join("gsort", algo, N, "desc", seed()))
+		}
+		one("insertion", "asc", join("gsort insertion", N, "asc", seed())) // linear on sorted input
+		one("select", "asc", join("gselect", strconv.Itoa(n/2), N, "rand", seed()))
+		one("select", "desc", join("gselect", strconv.Itoa(n-1), N, "big", seed()))
+		one("shuffle", "asc", join("gshuffle", N, seed()))
+		for _, algo := range []string{"msdstring", "q3string"} {
+			one(algo, "asc", join("gsort", algo, N, "pre", seed(), "5"))
+			one(algo, "asc", join("gsort", algo, N, "chain", seed(), "12"))
+		}
+		one("lsdstring", "asc", join("glsdstring", "3", N, "fix", seed()))
+	}
+	run.Stats.Extra["huge"] = "2^17, 2^17+1, 2^20 elements: the radix sorts on every bit pattern / top 16 bits / extremes, the n log n comparison sorts on random and 2^61-magnitude keys, Select, Shuffle, the string sorts (oracle only)"
 }
 
 // ---------------------------------------------------------------- threshold sweeps over the slice length
